@@ -924,3 +924,23 @@ Example C12_modes_differ_finding :
   | _, _ => False
   end.
 Proof. vm_compute. split; reflexivity. Qed.
+
+(* ================================================================================================== *)
+(* non-vacuity examples added after the reviewer's audit (Properties/C12_nv.v, 2026-10-01)         *)
+(* ================================================================================================== *)
+
+(* ==== non-vacuity instance obtained BY APPLYING the theorem above (added after review) ================== *)
+
+(* C12_header_once: a block comment without the C++ mark gets the default header in front (once); one that carries the
+   mark -- here a boxed comment with star runs -- is left alone *)
+Example C12_header_once_nonvacuous :
+  let bc := of_string "/* two * stars ** inside */" in
+  let own := of_string "/*---*- C++ -*---*\ my own header \*---*/" in
+  (make_default_block_comment (make_default_block_comment bc) = make_default_block_comment bc /\
+   has_cpp_mark (make_default_block_comment bc) = true) /\
+  (make_default_block_comment (make_default_block_comment own) = make_default_block_comment own /\
+   has_cpp_mark (make_default_block_comment own) = true) /\
+  has_cpp_mark bc = false /\ make_default_block_comment bc = native_header ++ bc /\ make_default_block_comment own = own.
+Proof.
+  intros bc own. refine (conj (C12_header_once bc) (conj (C12_header_once own) _)). repeat split; vm_compute; reflexivity.
+Qed.
